@@ -143,6 +143,7 @@ def run_e1_unit(prop, unit, tier, out, known, workdir, tus):
             viol_groups.setdefault(f['desc'], []).append(r)
     out.cov['distinct_nontrivial'] += nontrivial
     urec['witness_reached'] = nontrivial
+    urec['sat_backend'] = 'CaDiCaL (cbmc --sat-solver cadical)' if 'cadical' in unit.get('cbmc_extra', ()) else 'MiniSat 2.2.1 (cbmc default); %d quer%s decided by CaDiCaL after a MiniSat time-out' % (sum(1 for r in results if 'cadical' in r.get('sat_backend', '')), 'y' if sum(1 for r in results if 'cadical' in r.get('sat_backend', '')) == 1 else 'ies')
     urec['decided'] = n_done
     if results:
         for r in results[:2] + results[-1:]:
